@@ -154,6 +154,47 @@ impl Shape {
 /// Builds, through the hooks, a `StagesBuilder` whose five tables have the given concrete
 /// shape and symbolic contents (reads, writes, accumulated running times).
 pub fn pre_state<'a>(sh: Shape, barrier: usize) -> StagesBuilder<'a> {
+    pre_state_ids(sh, barrier, None)
+}
+
+pub const MAXN: usize = 8;
+
+/// A solver-chosen permutation of 0..n (n <= MAXN): which system id sits in which slot. Real builders
+/// do produce non-monotone ids across stages (a later, conflict-free system is back-filled into an
+/// earlier stage), so "ids in slot order" would hide bugs that depend on id order.
+pub fn any_permutation(n: usize) -> [usize; MAXN] {
+    let mut p = [0usize; MAXN];
+    let mut i = 0;
+    while i < n {
+        p[i] = any_below(n);
+        i += 1;
+    }
+    let mut i = 0;
+    while i < n {
+        let mut j = i + 1;
+        while j < n {
+            assume(p[i] != p[j]);
+            j += 1;
+        }
+        i += 1;
+    }
+    p
+}
+
+/// table look-up by comparisons (concrete loop)
+pub fn perm_at(p: &[usize; MAXN], n: usize, slot: usize) -> usize {
+    let mut r = 0;
+    let mut k = 0;
+    while k < n {
+        if slot == k {
+            r = p[k];
+        }
+        k += 1;
+    }
+    r
+}
+
+pub fn pre_state_ids<'a>(sh: Shape, barrier: usize, ids: Option<&[usize; MAXN]>) -> StagesBuilder<'a> {
     let mut b = StagesBuilder::verif_with_capacity(sh.s + 1);
     let mut id = 0usize;
     let mut s = 0;
@@ -164,7 +205,11 @@ pub fn pre_state<'a>(sh: Shape, barrier: usize) -> StagesBuilder<'a> {
             b.verif_add_group(s);
             let mut l = 0;
             while l < sh.l {
-                b.verif_push_slot(s, g, SystemId(id), Box::new(Nop));
+                let sid = match ids {
+                    Some(p) => p[id],
+                    None => id,
+                };
+                b.verif_push_slot(s, g, SystemId(sid), Box::new(Nop));
                 id += 1;
                 l += 1;
             }
